@@ -493,20 +493,65 @@ func (lsm *LSM) Get(key []byte) (*kv.Entry, error) {
 		return entry.Value != nil || entry.Meta != 0 || entry.ExpiresAt != 0
 	}
 
+	// Every memtable and every level may hold a version at or below the requested one;
+	// the newest of them is the answer. Sources are visited newest first, so among equal
+	// versions the first one found wins, and an exact match cannot be beaten.
+	want := kv.ParseTs(key)
+	var best *kv.Entry
 	for _, mt := range tables {
 		if mt == nil {
 			continue
 		}
 		entry, err := mt.Get(key)
-		if isMemHit(entry) {
-			return entry, err
+		if err != nil {
+			if entry != nil {
+				entry.DecrRef()
+			}
+			if best != nil {
+				best.DecrRef()
+			}
+			return nil, err
 		}
-		if entry != nil {
+		if !isMemHit(entry) {
+			if entry != nil {
+				entry.DecrRef()
+			}
+			continue
+		}
+		if best == nil || entry.Version > best.Version {
+			if best != nil {
+				best.DecrRef()
+			}
+			best = entry
+		} else {
 			entry.DecrRef()
+		}
+		if best.Version == want {
+			return best, nil
 		}
 	}
 	// query from the level manager
-	return lsm.levels.Get(key)
+	entry, err := lsm.levels.Get(key)
+	if err != nil {
+		if best != nil && err == utils.ErrKeyNotFound {
+			return best, nil
+		}
+		if best != nil {
+			best.DecrRef()
+		}
+		return entry, err
+	}
+	if best == nil {
+		return entry, nil
+	}
+	if entry != nil && entry.Version > best.Version {
+		best.DecrRef()
+		return entry, nil
+	}
+	if entry != nil {
+		entry.DecrRef()
+	}
+	return best, nil
 }
 
 // Prefetch warms cache layers for the key by issuing targeted block loads.
